@@ -6,6 +6,9 @@
   table is arbitrary), every mode, state and fuel.
 -/
 import ChumskyModel.Proofs.Lemmas.NestedRefine
+import ChumskyModel.Proofs.Lemmas.NestedHole
+import ChumskyModel.Proofs.Lemmas.NestedMode
+import ChumskyModel.Proofs.Lemmas.NestedAlt
 set_option linter.unusedSimpArgs false
 namespace Chumsky
 
@@ -141,6 +144,60 @@ example :
       | _ => (none, 99)) = (some (.pair (.toks [97]) (.nat 5)), 0) := by
   decide
 
+/-! ### the general form: `a.nested_in(b)` at any position of any grammar (`HEnv` / `runH` / `pegH`)
+
+  Inside `a`, `b` and the surrounding grammar `.call hole` is `a.nested_in(b)`: nested parses under repetitions, separated
+  lists, recovery, labels, lookahead, folds, in recursive definitions, and token trees parsed recursively (`a` mentions the
+  hole). The machine is the ordinary `step` with `NestedIn::go` at the hole. -/
+
+/-- **C16, general refinement.** Every grammar position, mode, state, fuel, token tree. -/
+theorem c16_general_refines (h : HEnv) (n : Nat) (env : Env) (m : Mode) (g : G) (st : St) (hm : env.memoOn = false) :
+    Refines m st.errs st.ctx (runH h n env m g st) (pegH h n env g st.ss st.ctx) :=
+  runH_refines h n env m g st hm
+
+theorem c16_general_parse (h : HEnv) (n : Nat) (env : Env) (m : Mode) (g : G) (hm : env.memoOn = false) :
+    TopRefines m (parseTopH h n env m g) (pegTopH h n env g) :=
+  parseTopH_refines h n env m g hm
+
+/-- what the reading says at the hole: `b` yields a group token and consumes it; `a` followed by end-of-input must match the
+    children — completely, from a fresh error state, sharing only inspector and context; the result is `a`'s, the outer
+    position is just after `b`, inner emissions are reported at that position after `b`'s -/
+theorem c16_general_hole (h : HEnv) (n : Nat) (env : Env) (s : SS) (ctx : Val) :
+    pegH h (n + 1) env (.call h.hole) s ctx = nestedStepS (pegH h n) h env s ctx :=
+  pegH_hole h n env s ctx
+
+/-- check mode through nested inputs (C04): same outcome, identical final state -/
+theorem c16_general_check_eq_emit (h : HEnv) (n : Nat) (env : Env) (g : G) (st : St) :
+    runH h n env .check g st = (runH h n env .emit g st).erase :=
+  (runH_modeSim h n).1 env g st
+
+/-- an inner failure is reported faithfully (C06 / C20 through nested inputs): a failing run leaves a pending error, and
+    when `parse` fails the last reported error is (≈) the summary of all failure events of the outer parse, each nested parse
+    that left an error contributing one event just after its group token -/
+theorem c16_general_failure_reported (h : HEnv) (n : Nat) (env : Env) (hek : env.ek ≠ .empty)
+    (hdefs : ∀ d ∈ env.defs, d.c06 = true) (ha : h.a.c06 = true) (hb : h.b.c06 = true) (m : Mode) (g : G)
+    (hg : g.c06 = true) (r : ParseResult) (f : St) (hp : parseTopH h n env m g = .result r f) (ho : r.output = none) :
+    ∃ l l', f.alt = some l ∧ summ env.ek f.log = some l' ∧ l.equiv l' ∧ r.errs = f.errs.map (·.err) ++ [l.err] ∧
+      (∀ ev ∈ f.log, ev.pos ≤ l.pos) :=
+  parseTopH_primary_error h n env hek hdefs ha hb m g hg r f hp ho
+
+/-- non-vacuity: a tree parsed recursively — group 1000 = [a, 1001, b], group 1001 = [b, b]; `a = (hole | a | b)*`; the
+    outer grammar is a separated list of trees `hole (',' hole)*` -/
+example :
+    let h : HEnv := { hole := 0, a := .collect .vec (.repeated (.or_ (.call 0) (.oneOf [97, 98])) 0 none),
+                      b := .select [1000, 1001], groups := [(1000, [97, 1001, 98]), (1001, [98, 98])], gap := 1 }
+    (match parseTopH h 60 { toks := [1000, 44, 1001], kind := .mapped, tspans := layoutSpans 1 3 0, eoi := (10, 10),
+                            memoOn := false } .emit
+        (.collect .vec (.separatedBy (.call 0) (.just [44]) 1 none false false)) with
+      | .result r f => (r.output.isSome, r.errs.length, f.pos)
+      | _ => (false, 99, 0)) = (true, 0, 3) := by
+  decide +kernel
+
+#print axioms c16_general_refines
+#print axioms c16_general_parse
+#print axioms c16_general_hole
+#print axioms c16_general_check_eq_emit
+#print axioms c16_general_failure_reported
 #print axioms c16_refines
 #print axioms c16_success
 #print axioms c16_complete
